@@ -452,6 +452,7 @@ def run(ctx):
   shared.rule_exact_equality(ctx, 'C15.R6')
   r7_every_user_recorded(ctx)
   r8_sharing_simulation(ctx)
+  shared.rule_shared_constant_pipeline(ctx, 'C15.R10')
   # results and the sharing check are keyed by tensor NAME: two sharers with one name (in any two subgraphs) would collapse into one entry
   from sa.rules import c01, c19  # pylint: disable=g-import-not-at-top
   c19._relabel(ctx, 'C01.R1', 'C15.R9', 'tensor names are checked to be unique across the whole model before results are keyed by name (C01.R1)', c01.r1_name_uniqueness)
